@@ -244,5 +244,16 @@ func findFunc(prog *ssa.Program, sp *ssa.Package, recv, name string) (*ssa.Funct
 			}
 		}
 	}
+	// a method promoted through an embedded interface exists only as a synthetic wrapper
+	for _, t := range []types.Type{types.NewPointer(obj.Type()), obj.Type()} {
+		ms := prog.MethodSets.MethodSet(t)
+		for i := 0; i < ms.Len(); i++ {
+			if ms.At(i).Obj().Name() == name {
+				if fn := prog.MethodValue(ms.At(i)); fn != nil {
+					return fn, nil
+				}
+			}
+		}
+	}
 	return nil, fmt.Errorf("method %s.%s not found", recv, name)
 }
